@@ -63,12 +63,9 @@ def canon_log(s):
 
 
 def split_alts(model_line):
-    """model line: alternatives ' || ' (tie-break oracle), then shared ' # POLLS=.. # LOG=..' suffix"""
+    """model line: alternatives ' || ' (tie-break oracle), each with its own ' # POLLS=.. # LOG=..' suffix"""
     body = model_line[2:] if model_line.startswith("M ") else model_line
-    i = body.find(" # POLLS=")
-    alts = body[:i].split(" || ") if i >= 0 else [body]
-    suffix = body[i:] if i >= 0 else ""
-    return ["M " + a + suffix for a in alts]
+    return ["M " + a for a in body.split(" || ")]
 
 
 GATE = {
@@ -167,6 +164,7 @@ class Stream:
         shards, oi = run_sharded("impl", "mdd", self.blocks, tag=self.chk.pid)
         _, om = run_sharded("model", "mdd", self.blocks, tag=self.chk.pid)
         self.results = []   # per block: list of (meta, impl_line, model_line)
+        self.tainted = 0
         res = [None] * len(self.blocks)
         for k in range(len(shards)):
             pi = 0; pm = 0
@@ -178,6 +176,10 @@ class Stream:
             rows = []
             cases = [l for l in self.blocks[idx][1:] if l[:2] in ("M ", "V ")]
             for j, meta in enumerate(metas[1:]):
+                if j < len(ml) and ml[j] == "M TAINTED":
+                    # an earlier compilation of this store epoch had a tie among equally valued terminal nodes whose resolution
+                    # changes the stores left behind: the model cannot follow the implementation's choice line by line
+                    self.tainted += 1; continue
                 rows.append((meta, il[j] if j < len(il) else "MISSING", ml[j] if j < len(ml) else "MISSING", cases[j]))
             self.results.append((I, rows))
         return self.results
